@@ -74,6 +74,11 @@ pub fn check(s: &Scenario) -> CheckResult {
             let want_v = v as f64 + a as f64 * t;
             let want_p = p as f64 + v as f64 * t + a as f64 * t * t / 2.0;
             let (ev, ep) = (R { v: want_v, e: nv.e }, R { v: want_p, e: np.e });
+            // intermediates of the f32 evaluation must stay well inside the f32 range for the bound to mean anything
+            let inter = [dts * ra, nv, dts * ((rv + nv) / R::c(2.0))];
+            if inter.iter().any(|r| !(r.v.abs() < 1.0e37)) || !(ev.is_finite() && ep.is_finite()) {
+                return Ok(CaseInfo::new(false, 0).class("update: reference overflows f32 range (skipped)"));
+            }
             HEADROOM.observe(ev.ratio(state.velocity));
             HEADROOM.observe(ep.ratio(state.position));
             ensure!(ev.admits(state.velocity, 4.0, 0.0), "C14/update/velocity", "state {:?} advanced by {} ns: velocity {:e}, expected v + a*dt = {:e} (bound {:e})", s.s1, s.dt, state.velocity, want_v, 4.0 * ev.e);
@@ -271,10 +276,13 @@ impl Property for C14 {
     const RULE: &'static str = "random finite state triples of moderate magnitude (zeros frequent), dt in +-1e5 s as i64 ns incl. 0 and +-1 ns, all three command kinds, grid units as setter arguments (exhaustive: 49 units x 3 setters x State::new), State/Command arithmetic incl. mixed kinds. Oracles: kinematic formulas in f64 with a running error bound (x4), exact identity for dt=0, exact component-wise f32 operators, setter effect/ rejection tables, command accessor round-trips, panic iff mixed-kind +/-. Non-trivial = dt<0 or non-zero acceleration (update), wrong-unit setter, mixed-kind pair or any conversion/arith case; distinct = (form, inputs).";
     type Scenario = Scenario;
     fn strategy(_tier: Tier) -> BoxedStrategy<Scenario> {
-        let triple = || [gen::moderate(), gen::moderate(), gen::moderate()];
+        // the statement quantifies over *all finite* triples: moderate values (where the kinematic bound is tight),
+        // arbitrary finite f32s incl. subnormals and values just above zero, and zero/non-zero patterns
+        let comp = || prop_oneof![5 => gen::moderate(), 3 => gen::finite_f32(), 1 => (any::<bool>(), -46.0f64..-3.0).prop_map(|(n, e)| { let v = 10f64.powf(e) as f32; if n { -v } else { v } })];
+        let triple = move || [comp(), comp(), comp()];
         let dt = prop_oneof![2 => Just(0i64), 1 => prop_oneof![Just(1i64), Just(-1i64)], 8 => -100_000_000_000_000i64..=100_000_000_000_000i64, 3 => -2_000_000_000i64..2_000_000_000i64];
         let unit = prop_oneof![1 => Just((1i8, 0i8)), 1 => Just((1i8, -1i8)), 1 => Just((1i8, -2i8)), 3 => (-3i8..=3, -3i8..=3)];
-        (triple(), triple(), dt, 0u8..3, 0u8..3, gen::moderate(), gen::moderate_nonzero(), unit, proptest::sample::select(forms()))
+        (triple(), triple(), dt, 0u8..3, 0u8..3, comp(), prop_oneof![3 => gen::moderate_nonzero(), 1 => gen::finite_f32()], unit, proptest::sample::select(forms()))
             .prop_map(|(s1, s2, dt, k1, k2, v, w, unit, form)| Scenario { s1, s2, dt, k1, k2, v, w, unit, form })
             .boxed()
     }
